@@ -205,6 +205,19 @@ func (c *certStatusChecker) executeInitialStatusAction(ctx context.Context,
 			return fmt.Errorf("recovery: error updating local storage with agglayer certificate: %w", err)
 		}
 	case InitialStatusActionInsertNewCert:
+		if localCert != nil && action.cert != nil && localCert.Height == action.cert.Height {
+			// the agglayer certificate replaces the local one at the same height (it is the retry that
+			// was sent but not stored): keep the retry numbering, the history is keyed by (height, retry)
+			cert, err := newCertificateInfoFromAgglayerCertHeader(action.cert)
+			if err != nil {
+				return fmt.Errorf("recovery: error creating certificate from AggLayer header: %w", err)
+			}
+			cert.Header.RetryCount = localCert.RetryCount + 1
+			if err := c.storage.SaveLastSentCertificate(ctx, *cert); err != nil {
+				return fmt.Errorf("recovery: error replacing local certificate with agglayer certificate: %w", err)
+			}
+			return nil
+		}
 		if _, err := c.updateLocalStorageWithAggLayerCert(ctx, action.cert); err != nil {
 			return fmt.Errorf("recovery: error new local storage with agglayer certificate: %w", err)
 		}
